@@ -518,3 +518,38 @@ def h_purity_history(inp, body):
         if a.shape != b.shape or not np.array_equal(a.values.astype(float), b.values.astype(float), equal_nan=True):
             diffs.append(t)
     return {"reproduced": bool(diffs), "observed": {"result_tables_that_differ": diffs}}
+
+
+def h_pump_volume_flow(inp, body):
+    """a pump in a hot-water net: its reported lift must equal its curve at its reported volume flow"""
+    import pandapipes as pp
+    net = pp.create_empty_network(fluid="water")
+    j = pp.create_junctions(net, 3, pn_bar=5, tfluid_k=360.0)
+    pp.create_ext_grid(net, j[0], p_bar=3, t_k=360.0)
+    pp.create_pump(net, j[0], j[1], "P1")
+    pp.create_pipe_from_parameters(net, j[1], j[2], 0.5, 0.15, k_mm=0.1)
+    pp.create_sink(net, j[2], 8.0)
+    pp.pipeflow(net, mode="hydraulics")
+    vdot = float(net.res_pump.vdot_m3_per_s.values[0])
+    dp = float(net.res_pump.deltap_bar.values[0])
+    curve = float(net.std_types["pump"]["P1"].get_pressure(vdot))
+    return {"reproduced": bool(abs(dp - curve) > 1e-6 * max(1.0, abs(curve))),
+            "observed": {"vdot_m3_per_s_reported": vdot, "deltap_bar_reported": dp, "curve_at_reported_vdot": curve,
+                         "difference_bar": dp - curve, "fluid_temperature_k": 360.0}}
+
+
+def h_circ_pump_out_of_service(inp, body):
+    """one of two circulation pumps out of service"""
+    import pandapipes as pp
+    net = pp.create_empty_network(fluid="water")
+    j = pp.create_junctions(net, 4, pn_bar=5, tfluid_k=330.0)
+    pp.create_circ_pump_const_pressure(net, j[0], j[1], p_flow_bar=5, plift_bar=1.0, t_flow_k=350.0)
+    pp.create_circ_pump_const_pressure(net, j[2], j[3], p_flow_bar=5, plift_bar=1.0, t_flow_k=350.0, in_service=False)
+    pp.create_pipe_from_parameters(net, j[1], j[0], 0.2, 0.1)
+    pp.create_pipe_from_parameters(net, j[3], j[2], 0.2, 0.1, in_service=False)
+    try:
+        pp.pipeflow(net, mode="hydraulics")
+        return {"reproduced": False, "observed": {"converged": bool(net.converged)}}
+    except Exception as e:  # noqa
+        bad = type(e).__name__ != "PipeflowNotConverged"
+        return {"reproduced": bool(bad), "observed": {"raised": "%s: %s" % (type(e).__name__, str(e)[:200])}}
